@@ -705,3 +705,8 @@ RULES = [
     Rule("C05.E12", lambda ctx: __import__("sa.mypyx", fromlist=["x"]).cross_check(ctx, [f"{MD}.MazeDataset.serialize", f"{CD}.MazeDatasetCollection.serialize", f"{DS}.GPTDataset.save"], "C05.E12"), floor=1,
          doc="thorough: call graph over-approximates mypy's type-resolved edges on the serialization closure", tier="thorough"),
 ]
+
+from sa import exits as _exits  # noqa: E402
+
+RULES.append(Rule("C05.RX", _exits.make_rule("C05", "C05.RX", _exits.SCOPES["C05"]), floor=1,
+                  doc="rejection conditions: the anchored functions refuse inputs only under the conditions confirmed on the pinned tree (E16)"))
